@@ -37,3 +37,20 @@ spec fn type_wf(t: ast::Type) -> bool
 {
     arity_ok(t) && forall |i: int| 0 <= i < t.generic_types@.len() ==> type_wf(#[trigger] t.generic_types@[i])
 }
+
+// ---------- expectations that also pin the (single) related range ----------
+pub enum EX { Plain(DP), Rel(DP, ast::Range) }
+
+spec fn matches_ex(d: Diagnostic, e: EX) -> bool {
+    match e {
+        EX::Plain(p) => dp(d) == p,
+        EX::Rel(p, r) => dp(d) == p && d.related_infos@.len() == 1 && d.related_infos@[0].range == r,
+    }
+}
+spec fn plain(xs: Seq<DP>) -> Seq<EX> { xs.map_values(|p: DP| EX::Plain(p)) }
+
+spec fn appended_ex(old_d: Seq<Diagnostic>, new_d: Seq<Diagnostic>, xs: Seq<EX>) -> bool {
+    &&& prefix_kept(old_d, new_d)
+    &&& new_d.len() == old_d.len() + xs.len()
+    &&& forall |i: int| old_d.len() <= i < new_d.len() ==> matches_ex(#[trigger] new_d[i], xs[i - old_d.len()])
+}
